@@ -66,6 +66,8 @@ func generate(w *mon.W) {
 			p = distinctThenDuplicates(rng)
 		case 3:
 			p = namedThenNarrowed(rng)
+		case 5:
+			p = manyConditions(rng, 1+(i/9)%10)
 		}
 		c := &pipecheck.Case{Pipe: p}
 		for k := 0; k < nInst; k++ {
@@ -200,6 +202,28 @@ func namedThenNarrowed(rng interface{ Intn(int) int }) *Pipe {
 	kind := []string{"", "inner", "leftouter", "innerunique"}[rng.Intn(4)]
 	p.Ops = append(p.Ops, &Op{K: "join", Kind: kind, Right: right, Conds: []*E{Bin("==", Name("$left", "k"), Name("$right", "rk"))}})
 	if rng.Intn(3) == 0 {
+		p.Ops = append(p.Ops, &Op{K: "count"})
+	}
+	return p
+}
+
+// manyConditions: one join with n conditions (1..10), each of which really
+// restricts the result: bare keys, equalities between differently named
+// columns, inequalities, conditions on one side only.
+func manyConditions(rng interface{ Intn(int) int }, n int) *Pipe {
+	l := func(c string) *E { return Name("$left", c) }
+	r := func(c string) *E { return Name("$right", c) }
+	pool := []*E{Name("k"), Name("j"), Bin("==", l("id"), r("uid")), Bin("==", l("ia"), r("ub")), Bin("<=", l("id"), r("uid")), Bin(">=", l("K"), r("k")),
+		Bin("!=", l("ia"), r("uid")), Bin("==", l("K"), r("j")), Bin(">", l("id"), Num("0")), Bin("<", r("ub"), Num("3")), Bin("==", r("uid"), l("k")), Bin("==", l("j"), r("ub"))}
+	p := &Pipe{Table: Ident{Name: "T"}}
+	var conds []*E
+	start := rng.Intn(len(pool))
+	for i := 0; i < n; i++ {
+		conds = append(conds, pool[(start+i*5)%len(pool)])
+	}
+	kind := []string{"", "inner", "leftouter", "innerunique"}[rng.Intn(4)]
+	p.Ops = append(p.Ops, &Op{K: "join", Kind: kind, Right: &Pipe{Table: Ident{Name: "U"}}, Conds: conds})
+	if rng.Intn(2) == 0 {
 		p.Ops = append(p.Ops, &Op{K: "count"})
 	}
 	return p
